@@ -285,6 +285,25 @@ row(props=["C06"], func="pkg/application/refactor/base.(JavaRefactorListener).En
     callee="pkg/application/refactor/base/models.(JFullIdentifier).AddField",
     expr='Expression(ctx, 0) != nil && !contains(%s, ".") && call("unicode.IsUpper", %s[0])' % (EXP0, EXP0),
     what="the left operand of every expression is recorded as a referenced name when it is a capitalised simple name (operators, method references, array access alike)")
+MC = 'call("regexp.(Regexp).FindStringSubmatch", global("pkg/application/git.complexMoveReg"), change.File)'
+row(props=["C15"], func="pkg/application/git.BuildChangeMap", params=["commits"], kind="emits", target="mapstore:inner", tag={}, total=1, each={"as": "commit,change"}, when="*",
+    fields={"key": "ite(len(%s) == 5, %s[1] + %s[3] + %s[4], change.File)" % (MC, MC, MC, MC)}, what="a change is counted under the file's current (new) name")
+row(props=["C18"], func="pkg/application/evaluate.(Analyser).Analysis", params=["a", "classNodes", "identifiers"], kind="callguard", in_loop=True, each={"as": "node"},
+    callee="pkg/application/evaluate.(Evaluation).Evaluate", expr='contains(lower(node.NodeName), "util")',
+    what="every utility class is counted and evaluated as one, whatever else its name says")
+row(props=["C19"], func="pkg/application/deps.(DepAnalysisApp).AnalysisPath", params=["d", "path", "nodes"], kind="emits", target="mapstore:makemap1", tag={}, total=1,
+    each={"as": "dep,key"}, when="contains(key_k, dep.GroupId)", fields={}, what="a dependency counts as used ⇔ its group id occurs in some recorded import")
+row(props=["C01", "C11"], func=FL + "(JavaFullListener).exitBody", params=["s"], kind="emits", target="globalstore:pkg/infrastructure/ast/ast_java.currentNode.FilePath", tag={}, total=1,
+    when='global("pkg/infrastructure/ast/ast_java.currentNode").NodeName != ""', fields={"value": 'global("pkg/infrastructure/ast/ast_java.fileName")'},
+    what="every finished type, not only the first of a file, is given the path of the file it was found in")
+row(props=["C01", "C11"], func=FL + "NewJavaFullListener", params=["nodes", "file"], kind="emits", target="globalstore:pkg/infrastructure/ast/ast_java.fileName", tag={}, total=1,
+    when="true", fields={"value": "file"}, what="the path of the file being analysed is recorded for its types")
+row(props=["C12"], func=API + "(JavaAPIListener).EnterAnnotation", params=["s", "ctx"], kind="emits", target="globalstore:" + API + "currentRestAPI", tag={}, total=1,
+    when="*", fields={}, what="the pending entry is started once per mapping annotation; its attribute pairs (method=, value=) only refine it, in any order")
+ANN = 'call("assert:*parser.AnnotationContext", GetChild(m, 0))'
+row(props=["C12"], func=API + "buildRestApiWithParameters", params=["ctx"], kind="emits", target="globalstore:" + API + "requestBodyClass", tag={}, total=2, each={"as": "param"},
+    when='exists(AllVariableModifier(param), m, String(call("reflect.TypeOf", GetChild(m, 0))) == "*parser.AnnotationContext" && QualifiedName(%s) != nil && GetText(QualifiedName(%s)) == "RequestBody")' % (ANN, ANN),
+    fields={"value": "GetText(TypeType(param))"}, what="the request body type is the type of the parameter that itself carries @RequestBody")
 
 json.dump({"e5": rows}, open(os.path.join(os.path.dirname(os.path.dirname(os.path.abspath(__file__))), "spec", "e5.json"), "w"), indent=1, ensure_ascii=False)
 print(len(rows), "rows")
